@@ -3,6 +3,8 @@
 
 package io
 
+import "io"
+
 // VerifYieldHook is used by the verification harness in /verif (build tag "verif") to
 // force schedules: when it is non-nil it is called at the named yield points of this
 // package with the object concerned (the reflect.Type being registered). It must be set
@@ -14,4 +16,13 @@ func verifYield(point string, obj interface{}) {
 	if h := VerifYieldHook; h != nil {
 		h(point, obj)
 	}
+}
+
+// VerifNewDecoderFromReader is NewDecoderFromReader without the lower bound on the
+// buffer size, so that the verification harness can drive the refill paths with buffers
+// of a few bytes.
+func VerifNewDecoderFromReader(reader io.Reader, bufSize int) *Decoder {
+	dec := NewDecoderFromReader(reader)
+	dec.buf = make([]byte, bufSize)
+	return dec
 }
